@@ -181,3 +181,17 @@ def direct_call_source(fd, op, depth=0):
     if d.kind == "assign" and d.instr.rv_kind() == "use" and d.instr.ops:
         return direct_call_source(fd, d.instr.ops[0], depth + 1)
     return None
+
+
+def direct_def_instr(fd, op, depth=0):
+    """the instruction that directly defines this operand (through plain moves/copies only)"""
+    if depth > 6 or op.place is None or not op.place.is_local:
+        return None
+    ds = [d for d in fd.defs.get(op.place.local, ()) if d.kind != "param"]
+    if len(ds) != 1:
+        return None
+    d = ds[0]
+    if d.kind == "assign" and d.instr.rv_kind() == "use" and d.instr.ops and d.instr.ops[0].place is not None:
+        r = direct_def_instr(fd, d.instr.ops[0], depth + 1)
+        return r if r is not None else d.instr
+    return d.instr
